@@ -129,9 +129,12 @@ func ZZ_S09a_Hedge() {
 	for i := range durs {
 		durs[i] = symDur("d", 0, 30)
 	}
-	var infos []failsafe.Execution[int]
+	infos := make([]failsafe.Execution[int], H+1)
 	r, err := failsafe.NewExecutor[int](hp).GetWithExecution(func(e failsafe.Execution[int]) (int, error) {
 		k := zzvrt.CtrAdd("starts", 1) - 1
+		if k <= H {
+			infos[k] = e
+		}
 		zzvrt.Assert(k <= H, "hedge: at most maxHedges+1 attempts")
 		if zzvrt.CtrGet("returned") != 0 {
 			// Only possible when the hedge timer and the accepted result became ready at the same instant and the
@@ -154,7 +157,16 @@ func ZZ_S09a_Hedge() {
 	})
 	zzvrt.CtrAdd("returned", 1)
 	end := zzvrt.Now()
-	_ = infos
+	// at the moment it returns: every other started attempt has been cancelled, the winner has not
+	for k := 0; k <= H; k++ {
+		if infos[k] != nil && err == nil {
+			if k == r-100 {
+				zzvrt.Assert(!infos[k].IsCanceled(), "hedge: the winning attempt has not been cancelled at return")
+			} else {
+				zzvrt.Assert(infos[k].IsCanceled(), "hedge: every other started attempt has been cancelled at return")
+			}
+		}
+	}
 	zzvrt.Assert(err == nil, "hedge: result produced by one of the attempts")
 	starts := zzvrt.CtrGet("starts")
 	zzvrt.Assert(r >= 100, "hedge: result produced by one of the attempts")
@@ -762,7 +774,12 @@ func ZZ_S09b_HedgePlacements() {
 	d0 := symDur("d0", 0, 30)
 	d1 := symDur("d1", 0, 30)
 	place := zzvrt.Choose("placement", 3)
-	hp := hedgepolicy.BuilderWithDelay[int](D).OnHedge(func(e failsafe.ExecutionEvent[int]) { zzvrt.CtrAdd("hedges", 1) }).Build()
+	hb := hedgepolicy.BuilderWithDelay[int](D).OnHedge(func(e failsafe.ExecutionEvent[int]) { zzvrt.CtrAdd("hedges", 1) })
+	strict := place == 0 && zzvrt.Choose("never-matching-cancel-conditions", 2) == 1
+	if strict {
+		hb = hb.CancelOnResult(12345) // no attempt produces it: each round's result is delivered only after both attempts finished
+	}
+	hp := hb.Build()
 	var ps []failsafe.Policy[int]
 	T := symDur("T", 1, 30)
 	switch place {
@@ -798,6 +815,9 @@ func ZZ_S09b_HedgePlacements() {
 		zzvrt.Assert(errors.Is(err, retrypolicy.ErrExceeded), "retry: gives up with ExceededError")
 		zzvrt.Assert(zzvrt.CtrGet("starts") <= 4, "hedge: at most maxHedges+1 attempts per retry round")
 		zzvrt.Assert(zzvrt.CtrGet("starts") >= 2, "retry: each round runs at least the first attempt")
+		if strict {
+			zzvrt.Assert(zzvrt.CtrGet("starts") == 4, "hedge: a non-matching result is delivered only after all attempts finished (in every retry round)")
+		}
 	case 1:
 		if errors.Is(err, timeout.ErrExceeded) {
 			zzvrt.Assert(end-start >= int64(T), "timeout: ErrExceeded never before the time limit elapsed")
